@@ -36,7 +36,11 @@ Inductive case16 :=
 | CRace (fe procs : Z) (o_done : bool) (o_errs : Z) (o_open o_answered : bool)
 | CLeak (fe nreq : Z) (o_done : bool) (o_left : Z)
 | CReload (ops : list rop)
-| CAfterStop (fe store : Z) (o_done o_panic o_storemsg : bool).
+| CAfterStop (fe store : Z) (o_done o_panic o_storemsg : bool)
+| CMwStop (state : Z) (members : list (list (option Z))) (o_done : bool) (o_res : list (option Z)).
+     (* middleware.Logic.Stop: a stop group over the stoppable hooks (pre-hooks, then post-hooks); members = the Done
+        arguments of each; state: what the JWT hook's refresh goroutine was doing (0 no JWT hook, 1 idle, 2 a fetch in
+        flight that never completes).  A hook's Stop completes whatever its own goroutines are doing. *)
 
 (* ---- groups *)
 Definition oz_eqb (a b : option Z) : bool :=
@@ -215,6 +219,9 @@ Definition chk16 (c : case16) : verdict :=
   | CLeak fe nreq o_done o_left => chk_leak fe nreq o_done o_left
   | CReload ops => chk_reload ops
   | CAfterStop fe _ o_done o_panic o_storemsg => chk_afterstop fe o_done o_panic o_storemsg
+  | CMwStop state ms o_done o_res =>
+    (60 + state, if negb o_done then 6 else if raw_eqb (group_result ms) o_res then 0
+                 else if all_proper ms then 4 else 101)
   end.
 
 (* what the fixed protocol and the protocol of the code before F6/F7 predict *)
@@ -234,6 +241,7 @@ Definition explain16 (c : case16) : expl :=
   | CLeak fe n _ _ => XLeak (model_leak true fe (Z.to_nat n))
   | CReload ops => XReload (chk_reload ops)
   | CAfterStop fe _ _ _ _ => XAfterStop (model_afterstop true fe) (model_afterstop false fe)
+  | CMwStop _ ms _ _ => XGroup (Some (group_result ms))
   end.
 
 (* sanity of the scenario schedules themselves (evaluated when this file is compiled) *)
